@@ -1,16 +1,16 @@
 package main
 
 import (
-	crand "crypto/rand"
-	"crypto/rsa"
-	"crypto/x509"
-	"encoding/pem"
 	"bufio"
 	"bytes"
 	"crypto/hmac"
+	crand "crypto/rand"
+	"crypto/rsa"
 	"crypto/sha256"
+	"crypto/x509"
 	"encoding/base64"
 	"encoding/json"
+	"encoding/pem"
 	"fmt"
 	"io"
 	"net"
@@ -53,16 +53,16 @@ type pfUpstream struct {
 }
 
 type pfCfg struct {
-	Upstreams   []pfUpstream `json:"upstreams"`
-	Secure      bool         `json:"secure"`
-	HTTPOnly    bool         `json:"httpOnly"`
-	Domain      string       `json:"domain"`
-	L           int64        `json:"L"`
-	V           int64        `json:"V"`
-	G           int64        `json:"G"`
-	DefaultSlug string       `json:"defaultSlug"`
-	Signer      bool         `json:"signer"` // REQUESTSIGNER_KEY configured
-	Hmac        bool         `json:"hmac"`   // <service>_signing_key configured for every upstream
+	Upstreams   []pfUpstream      `json:"upstreams"`
+	Secure      bool              `json:"secure"`
+	HTTPOnly    bool              `json:"httpOnly"`
+	Domain      string            `json:"domain"`
+	L           int64             `json:"L"`
+	V           int64             `json:"V"`
+	G           int64             `json:"G"`
+	DefaultSlug string            `json:"defaultSlug"`
+	Signer      bool              `json:"signer"` // REQUESTSIGNER_KEY configured
+	Hmac        bool              `json:"hmac"`   // <service>_signing_key configured for every upstream
 	Inject      map[string]string `json:"inject"`
 }
 
@@ -109,10 +109,10 @@ type pfStep struct {
 	Profile  pfReply           `json:"ansProfile"`
 	Redeem   pfReply           `json:"ansRedeem"`
 	// callback steps: which sealed values to present
-	StateKind string `json:"stateKind,omitempty"` // own | other | same | garbage | session | absent | stale-own
-	CsrfKind  string `json:"csrfKind,omitempty"`  // own | other | garbage | session | absent
-	Code      string `json:"code,omitempty"`
-	ErrParam  string `json:"errParam,omitempty"`
+	StateKind string  `json:"stateKind,omitempty"` // own | other | same | garbage | session | absent | stale-own
+	CsrfKind  string  `json:"csrfKind,omitempty"`  // own | other | garbage | session | absent
+	Code      string  `json:"code,omitempty"`
+	ErrParam  string  `json:"errParam,omitempty"`
 	Upstream  pfReply `json:"upstreamResp"` // what the backend answers: headers to set are in Groups as "K: V"
 }
 
@@ -124,25 +124,27 @@ type pfCase struct {
 // ---------------------------------------------------------------- world
 
 type pfWorld struct {
-	cfg      pfCfg
-	handler  http.Handler
-	auth     *httptest.Server
-	backends map[string]*httptest.Server // service -> backend
-	cipher   *aead.MiscreantCipher
-	other    *aead.MiscreantCipher
-	mu       sync.Mutex
-	cur      *pfStep
-	calls    []string
-	callInfo []M
-	reached  []M
-	jar      map[string]string   // host -> current session cookie value (as the browser holds it)
-	jarOld   map[string][]string // host -> earlier values
-	csrf     map[string]string   // host -> csrf cookie value
-	flows    map[string][]string // host -> state strings issued by OAuthStart (newest last)
-	csrfs    map[string][]string
-	tmp      string
+	cfg        pfCfg
+	handler    http.Handler
+	auth       *httptest.Server
+	backends   map[string]*httptest.Server // service -> backend
+	cipher     *aead.MiscreantCipher
+	other      *aead.MiscreantCipher
+	mu         sync.Mutex
+	cur        *pfStep
+	calls      []string
+	callInfo   []M
+	reached    []M
+	jar        map[string]string   // host -> current session cookie value (as the browser holds it)
+	jarOld     map[string][]string // host -> earlier values
+	csrf       map[string]string   // host -> csrf cookie value
+	flows      map[string][]string // host -> state strings issued by OAuthStart (newest last)
+	csrfs      map[string][]string
+	tmp        string
 	cookieName string
-	verify   func(r *http.Request, body []byte, rec M)
+	verify     func(r *http.Request, body []byte, rec M)
+	hold       chan struct{} // when set: a backend request carrying X-Verif-Hold waits here before reading its body
+	holdIn     chan struct{} // … after announcing itself here
 }
 
 const pfSecretB64 = "MDEyMzQ1Njc4OWFiY2RlZjAxMjM0NTY3ODlhYmNkZWY=" // base64("0123456789abcdef0123456789abcdef")
@@ -232,6 +234,10 @@ func newPfWorld(cfg pfCfg) (*pfWorld, error) {
 	for _, u := range cfg.Upstreams {
 		svc := u.Service
 		be := httptest.NewServer(http.HandlerFunc(func(rw http.ResponseWriter, r *http.Request) {
+			if h := w.hold; h != nil && r.Header.Get("X-Verif-Hold") != "" {
+				w.holdIn <- struct{}{}
+				<-h
+			}
 			w.mu.Lock()
 			st := w.cur
 			hdr := M{}
@@ -241,6 +247,11 @@ func newPfWorld(cfg pfCfg) (*pfWorld, error) {
 			body, _ := io.ReadAll(r.Body)
 			rec := M{"service": svc, "host": r.Host, "path": r.URL.EscapedPath(), "decodedPath": r.URL.Path, "query": r.URL.RawQuery, "headers": hdr,
 				"method": r.Method, "body": hxb(body), "contentLength": r.ContentLength, "te": r.TransferEncoding}
+			if len(body) > 1<<20 {
+				d := sha256.Sum256(body)
+				rec["body"] = fmt.Sprintf("sha256:%x:%d", d, len(body))
+				rec["bigBody"] = true
+			}
 			if w.verify != nil {
 				w.verify(r, body, rec)
 			}
